@@ -38,8 +38,8 @@ class Roles:
             raise Inconclusive("value parser not identified (%d candidates)" % len(vp))
         self.value_parser, self.parsers = vp[0]
         self.parsed_ty = items[self.value_parser.key]["output"]  # Result<Parsed<'a>, Error>
-        inner = self.parsed_ty[len("std::result::Result<"):]
-        self.parsed_adt = inner.split("<")[0]
+        import re as _re
+        self.parsed_adt = _re.match(r"std::result::Result<([\w:]+)", self.parsed_ty).group(1)
         # list parser: fn(Vec<&Value>) -> Result<Vec<Parsed>>
         self.list_parsers = [b for b in facts.fns() if b.kind == "fn" and items.get(b.key, {}).get("output", "").startswith("std::result::Result<std::vec::Vec<%s" % self.parsed_adt)]
         # evaluate-role functions: return Result<Evaluated<..>, _>
@@ -49,9 +49,9 @@ class Roles:
             if b.kind != "fn":
                 continue
             out = items.get(b.key, {}).get("output", "")
-            if out.startswith("std::result::Result<") and "Evaluated<" in out.split(",")[0]:
+            if out.startswith("std::result::Result<") and _re.match(r"std::result::Result<[\w:]*Evaluated\b", out):
                 self.evaluators.add(b.key)
-                self.evaluated_adt = out[len("std::result::Result<"):].split("<")[0]
+                self.evaluated_adt = _re.match(r"std::result::Result<([\w:]+)", out).group(1)
         if len(self.evaluators) < 5:
             raise Inconclusive("expected the five evaluate functions (4 parser impls + the parsed-value dispatcher), found %d" % len(self.evaluators))
         # the evaluator of parsed values (called by operators): first input is &Parsed
